@@ -434,10 +434,12 @@ class ConcurrentExecutor(ABC, Generic[CallableType, ResultType]):
             run_in_child_handler,
             child_context.state,
             operation_identifier=operation_identifier,
+            # The summary generator describes the BatchResult of the whole map/parallel operation
+            # (it is applied by the top-level context); a branch returns an arbitrary user value,
+            # so a large branch result falls back to the empty summary.
             config=ChildConfig(
                 serdes=self.item_serdes or self.serdes,
                 sub_type=self.sub_type_iteration,
-                summary_generator=self.summary_generator,
             ),
         )
         child_context.state.track_replay(operation_id=operation_id)
